@@ -78,6 +78,9 @@ where
 /*@*/     ensures
 /*@*/     /*L*/     cap_post(old, old_range, new, new_range, res@, false),   // [C02,C09,C10]
 /*@*/     /*S*/     cap_post(old, old_range, new, new_range, res@, true),    // [C11]
+/*@*/     // C09, last sentence: a pure insertion that is followed by equal items sits at its latest position (its first inserted item
+/*@*/     // differs from the first equal item after it: `new[ins.new_index] == old[eq.old_index]` is false)
+/*@*/     ins_late(rel_of(old, new), res@),   // [C09]
 /*@*/     /*L*/     (true && alg != Algorithm::Patience) ==> cap_eqs(old, old_range, new, new_range, res@, false)
 /*@*/     /*L*/         == lcs_len(old, old_range.start as int, old_range.end as int, new, new_range.start as int, new_range.end as int),   // [C03]
 /*@*/     /*L*/     // C02: identical inputs give only Equal ops (none for two empty inputs) - for the minimal algorithms without deadline
@@ -110,6 +113,9 @@ where
 /*@*/     ensures
 /*@*/     /*L*/     cap_post(old, old_range, new, new_range, res@, false),   // [C02,C09,C10]
 /*@*/     /*S*/     cap_post(old, old_range, new, new_range, res@, true),    // [C11]
+/*@*/     // C09, last sentence: a pure insertion that is followed by equal items sits at its latest position (its first inserted item
+/*@*/     // differs from the first equal item after it: `new[ins.new_index] == old[eq.old_index]` is false)
+/*@*/     ins_late(rel_of(old, new), res@),   // [C09]
 /*@*/     /*L*/     (deadline is None && alg != Algorithm::Patience) ==> cap_eqs(old, old_range, new, new_range, res@, false)
 /*@*/     /*L*/         == lcs_len(old, old_range.start as int, old_range.end as int, new, new_range.start as int, new_range.end as int),   // [C03]
 /*@*/     /*L*/     // C02: identical inputs give only Equal ops (none for two empty inputs) - for the minimal algorithms without deadline
@@ -178,6 +184,13 @@ where
     /*@*/     assert(xs.ok && xs.oc == oe && xs.nc == ne);
     /*@*/     assert(evs_of(cp.ops_spec()) == rp.em_());
     /*@*/     assert(xs.eqs == seg_eqs(rel, lvl, s, os, ns, oe, ne));   // [C03]
+    /*@*/     // C09, last sentence: every Insert of the compacted script is stuck (Compact::done); the Replace adapter, driven by such a
+    /*@*/     // script, forwards only pure insertions that sit at their latest position (Replace::c9)
+    /*@*/     assert(ins_stuck(rel, ops1));   // [C09]
+    /*@*/     lemma_ins_stuck_evs(rel, ops1);
+    /*@*/     assert(rp.hist_() =~= evs_of(ops1).push(Ev::Finish));
+    /*@*/     assert(rp.late_ok());   // [C09]
+    /*@*/     lemma_ev_late_ops(rel, cp.ops_spec());
     /*@*/     if deadline is None && alg != Algorithm::Patience && oe - os == ne - ns
     /*@*/         && (forall|i: int| 0 <= i < oe - os ==> #[trigger] relk(rel, os, ns, i)) {
     /*@*/         lemma_lcs_prefix(old, os, oe, new, ns, ne, oe - os);
@@ -200,6 +213,9 @@ where
 /*@*/     ensures
 /*@*/     /*L*/     cap_post(old, (0..old.len()), new, (0..new.len()), res@, false),   // [C02,C09,C10]
 /*@*/     /*S*/     cap_post(old, (0..old.len()), new, (0..new.len()), res@, true),    // [C11]
+/*@*/     // C09, last sentence: a pure insertion that is followed by equal items sits at its latest position (its first inserted item
+/*@*/     // differs from the first equal item after it: `new[ins.new_index] == old[eq.old_index]` is false)
+/*@*/     ins_late(rel_of(old, new), res@),   // [C09]
 /*@*/     /*L*/     (true && alg != Algorithm::Patience) ==> cap_eqs(old, (0..old.len()), new, (0..new.len()), res@, false)
 /*@*/     /*L*/         == lcs_len(old, (0..old.len()).start as int, (0..old.len()).end as int, new, (0..new.len()).start as int, (0..new.len()).end as int),   // [C03]
 /*@*/     /*L*/     // C02: identical inputs give only Equal ops (none for two empty inputs) - for the minimal algorithms without deadline
@@ -227,6 +243,9 @@ where
 /*@*/     ensures
 /*@*/     /*L*/     cap_post(old, (0..old.len()), new, (0..new.len()), res@, false),   // [C02,C09,C10]
 /*@*/     /*S*/     cap_post(old, (0..old.len()), new, (0..new.len()), res@, true),    // [C11]
+/*@*/     // C09, last sentence: a pure insertion that is followed by equal items sits at its latest position (its first inserted item
+/*@*/     // differs from the first equal item after it: `new[ins.new_index] == old[eq.old_index]` is false)
+/*@*/     ins_late(rel_of(old, new), res@),   // [C09]
 /*@*/     /*L*/     (deadline is None && alg != Algorithm::Patience) ==> cap_eqs(old, (0..old.len()), new, (0..new.len()), res@, false)
 /*@*/     /*L*/         == lcs_len(old, (0..old.len()).start as int, (0..old.len()).end as int, new, (0..new.len()).start as int, (0..new.len()).end as int),   // [C03]
 /*@*/     /*L*/     // C02: identical inputs give only Equal ops (none for two empty inputs) - for the minimal algorithms without deadline
